@@ -30,6 +30,7 @@ import (
 	"sync"
 	texttemplate "text/template"
 	"time"
+	"unicode"
 
 	"golang.org/x/crypto/ssh"
 	"golang.org/x/net/context"
@@ -1166,8 +1167,12 @@ func getLoginDestination(r *http.Request) string {
 	loginDestination := profilePath
 	if r.FormValue("login_destination") != "" {
 		inboundLoginDestination := r.Form.Get("login_destination")
+		// Browsers treat a backslash as a slash and strip tabs and newlines
+		// from URLs: "/\\host" and "/<TAB>/host" would leave this origin.
 		if strings.HasPrefix(inboundLoginDestination, "/") &&
-			!strings.HasPrefix(inboundLoginDestination, "//") {
+			!strings.HasPrefix(inboundLoginDestination, "//") &&
+			!strings.HasPrefix(inboundLoginDestination, "/\\") &&
+			strings.IndexFunc(inboundLoginDestination, unicode.IsControl) < 0 {
 			loginDestination = inboundLoginDestination
 		}
 	}
